@@ -1059,7 +1059,13 @@ def fam_allowed_mix(rng, n):
         for call in range(rng.choice([1, 1, 2, 3, 4])):
             if call > 0 and rng.random() < 0.7:
                 # the caller changes the public allowed set between calls (widen, narrow, replace, empty)
-                S = rng.choice([[5, 7, 9, 10], [v for v in (5, 7, 9, 10) if rng.random() < 0.5], S + [rng.choice([5, 7, 9, 10])], [], [rng.choice([5, 7, 9, 10])]]) + extra_versions(rng, 0.2)
+                swapped = list(S)
+                if swapped:
+                    # same SIZE, different content: one member replaced by a version that is not in the set
+                    out_v = [v for v in (5, 7, 9, 10, 11, 6) if v not in swapped]
+                    if out_v:
+                        swapped[rng.randrange(len(swapped))] = rng.choice(out_v)
+                S = rng.choice([[5, 7, 9, 10], [v for v in (5, 7, 9, 10) if rng.random() < 0.5], S + [rng.choice([5, 7, 9, 10])], [], [rng.choice([5, 7, 9, 10])], swapped, swapped]) + (extra_versions(rng, 0.2) if rng.random() < 0.5 else [])
                 ops.append({"op": "allowed", "p": 0, "set": S})
             msgs = []
             for _ in range(rng.randrange(0 if call > 0 else 1, 5)):
@@ -1071,6 +1077,64 @@ def fam_allowed_mix(rng, n):
             o["nospec"] = True
             ops.append(o)
         out.append(("allowed-mix", ops))
+    return out
+
+
+def fam_allowed_swap(rng, n=40):
+    """C12 / C02 / C03: the caller EDITS `allowed_versions` between calls on one parser without changing its SIZE (one member replaced
+    by a non-member, remove + insert, a reassignment of equal length), after at least one call under the old set; then buffers that
+    start with a packet of the version that was added, and of the version that was removed.  p0 is the edited parser, p1 an
+    every-version-allowed twin fed the same calls, p2 an every-version-allowed parser fed only the allowed prefix of the last buffer."""
+    out = []
+    real = [5, 7, 9, 10]
+    cases = []
+    for a in real:                      # `a` leaves the set, `b` enters; the rest stays
+        for b in real:
+            if a != b:
+                for rest in ([], [x for x in real if x not in (a, b)][:1], [x for x in real if x not in (a, b)]):
+                    cases.append((a, b, rest))
+    for a in real:                      # a decoder-less version replaces / is replaced by a real one
+        cases.append((a, 11, []))
+        cases.append((11, a, []))
+    rng.shuffle(cases)
+    for (a, b, rest) in cases[:n]:
+        def pkt(v):
+            if v in real:
+                # a FRESH exporter per packet: the packet carries the templates its data needs, so it decodes wherever it is accepted
+                return rand_packets(rng, Exporter(rng, lossless=True, simple_ipfix=True), 1, versions=(v,))[0]
+            return raw_version_msg(rng, v)
+        S_old = [a] + rest + extra_versions(rng, 0.15)
+        S_new = [b] + rest + [v for v in S_old if v not in real and v != a]
+        if len(set(S_new)) != len(set(S_old)):
+            S_new = [b] + rest
+            S_old = [a] + rest
+        first = [pkt(a)] + ([pkt(b)] if rng.random() < 0.5 else [])
+        for order in ((b, a), (a, b), (b,)):
+            last = [pkt(v) for v in order]
+            prefix = []
+            ends_in_error = False
+            for m in last:
+                if msg_version(m) not in S_new:
+                    break
+                prefix.append(m)
+                if "raw" in m:
+                    ends_in_error = True
+                    break
+            ops = [op_new(0, allowed=S_old), op_new(1, allowed="all"), op_new(2, allowed="all")]
+            # the twins see exactly what p0 ACCEPTS of the first buffer (its prefix allowed under the old set), so that all three hold
+            # the same caches when the last buffer arrives
+            for pid, ms in ((0, first), (1, first[:1]), (2, first[:1])):
+                o = op_parse(pid, msgs=ms, want=[]); o["nospec"] = True; ops.append(o)
+            ops.append({"op": "allowed", "p": 0, "set": S_new})
+            for pid in (0, 1):
+                o = op_parse(pid, msgs=last, want=[]); o["nospec"] = True; ops.append(o)
+            o = op_parse(2, msgs=prefix, want=[]) if prefix else op_parse(2, hexs="", want=[])
+            o["nospec"] = True; ops.append(o)
+            asrt = {"op": "assert_filter", "a": 0, "b": 1}
+            if not ends_in_error:
+                asrt["c"] = 2
+            ops.append(asrt)
+            out.append(("allowed-swap", ops))
     return out
 
 
@@ -1376,18 +1440,97 @@ def fam_forget(rng, n):
         ops = [op_new(0)]
         def add(m, w=want):
             o = op_parse(0, msgs=[m], want=list(w)); o["nospec"] = True; ops.append(o)
-        add(pk([tset], 1), [])
+        first_set, first_data = tset, datamsg
+        if kind == "tpl" and rng.random() < 0.35:
+            # the definition the caller later expires has one more field, of a type the library has NO decoder for (V9 40000 / IPFIX
+            # 600): with `parse_unknown_fields` off its records do not decode; what comes back on the wire afterwards is known-only
+            import copy
+            tu = copy.deepcopy(t)
+            if proto == 9:
+                tu["fields"] = tu["fields"] + [{"typ": 40000, "len": 4}]
+                tu["fieldCount"] = len(tu["fields"])
+                first_set = {"templates": {"ts": [tu], "pad": ""}}
+                du = {"data": {"id": tid, "recs": [v9_record(rng, t) + ["00000001"] for _ in range(rng.randrange(1, 3))], "pad": ""}}
+            else:
+                tu["fields"] = tu["fields"] + [{"typ": 600, "len": 4, "ent": None}]
+                first_set = {"templates": {"ts": [tu], "pad": ""}}
+                du = {"data": {"id": tid, "recs": [ip_record(rng, t["fields"]) + [{"content": "00000001", "form": "fixed"}] for _ in range(rng.randrange(1, 3))], "pad": ""}}
+            first_data = lambda k: pk([du], k)
+        add(pk([first_set], 1), [])
         for k in range(rng.randrange(1, 3)):
-            add(datamsg(2 + k))                       # decoded: whatever the code derives lazily from the template is now built
+            add(first_data(2 + k))                    # decoded: whatever the code derives lazily from the template is now built
         ops.append({"op": "forget", "p": 0, "proto": proto, "id": tid})
         if rng.random() < 0.5:
-            add(pk([tset], 5) if False else msg_v5(rng, 1), [])     # unrelated traffic in between
+            add(msg_v5(rng, 1), [])     # unrelated traffic in between
+        if rng.random() < 0.5:
+            # a TRUNCATED template message of the same protocol right after the caller's edit: reported as an error, and the caches
+            # stay exactly as the caller left them (the correspondence compares the caches after every call)
+            add(pk([tset], 5), [])
+            ops[-1]["cutfrac"] = rng.choice([300, 500, 700, 900, 990])
         add(datamsg(6))                               # the id is absent from the cache: no records
         ops[-1]["unknown_id"] = tid; ops[-1]["unknown_proto"] = proto
         if rng.random() < 0.7:
             add(pk([tset], 7), [])                    # received again
             add(datamsg(8))                           # decodes again
         out.append(("forget-%d-%s" % (proto, kind), ops))
+    return out
+
+
+def fam_adopt(rng, n):
+    """the CALLER replaces the public cache maps of a parser by those of another parser (one parser value serving several exporters, a
+    restored snapshot; op `adopt`): p0 and p1 learn DIFFERENT definitions of one id (other record size, other fields, other kind), p0
+    decodes data under its own, adopts p1's maps, and then receives data laid out for p1's definition — it must decode exactly as p1
+    decodes the same bytes; then p0's own definition arrives again on the wire and its data decodes again."""
+    out = []
+    for _ in range(n):
+        proto = rng.choice([9, 10])
+        tid = rng.choice([256, 257, 300])
+        if proto == 9:
+            ta, tb = v9_template(rng, tid, lossless=True), v9_template(rng, tid, lossless=True)
+            def tmsg(t, k):
+                return {"v9": {"m": {"count": 1, "sysUpTime": k, "unixSecs": k, "seq": k, "sourceId": 1, "sets": [{"templates": {"ts": [t], "pad": ""}}]}}}
+            def dmsg(t, k, nrec):
+                return {"v9": {"m": {"count": 1, "sysUpTime": k, "unixSecs": k, "seq": k, "sourceId": 1, "sets": [{"data": {"id": tid, "recs": [v9_record(rng, t) for _ in range(nrec)], "pad": ""}}]}}}
+        else:
+            ta = ip_template(rng, tid, lossless=True, varlen=False, enterprise=False)
+            tb = ip_template(rng, tid, lossless=True, varlen=False, enterprise=False)
+            def tmsg(t, k):
+                return {"ipfix": {"m": {"exportTime": k, "seq": k, "odid": 1, "sets": [{"templates": {"ts": [t], "pad": ""}}]}}}
+            def dmsg(t, k, nrec):
+                return {"ipfix": {"m": {"exportTime": k, "seq": k, "odid": 1, "sets": [{"data": {"id": tid, "recs": [ip_record(rng, t["fields"]) for _ in range(nrec)], "pad": ""}}]}}}
+        want = ["export", "common", "json"]
+        ops = [op_new(0), op_new(1)]
+        def add(pid, m, w=want):
+            o = op_parse(pid, msgs=[m], want=list(w)); o["nospec"] = True; ops.append(o)
+        add(0, tmsg(ta, 1), []); add(1, tmsg(tb, 1), [])
+        add(0, dmsg(ta, 2, rng.randrange(1, 4)))
+        ops.append({"op": "adopt", "p": 0, "from": 1, "proto": proto})
+        db = dmsg(tb, 3, rng.randrange(2, 6))
+        add(0, db); add(1, db)
+        ops.append({"op": "assert_same", "a": 0, "b": 1, "pkts_only": True, "last_only": True})
+        if rng.random() < 0.6:
+            add(0, tmsg(ta, 4), []); add(0, dmsg(ta, 5, rng.randrange(2, 5)))
+        out.append(("adopt-%d" % proto, ops))
+    return out
+
+
+def fam_fixed_alias_versions(rng, n=60):
+    """C08 / C03 / C02: a byte-exact V5 or V7 LAYOUT (24-byte header, `count` records of 48 / 52 bytes) under ANOTHER version word
+    (1, 4, 6, 8, 11, 12 …) that the caller has put into `allowed_versions`: there is no decoder for it, so the result is the
+    unknown-version error; should a decoder be attached to such a number, what it returns must still re-export to the bytes it occupied."""
+    out = []
+    for _ in range(n):
+        w = rng.choice([1, 4, 6, 6, 8, 11, 12, 0, 15, 16])
+        like = rng.choice([5, 7])
+        cnt = rng.choice([0, 1, 2, 3, 30])
+        rec = 48 if like == 5 else 52
+        body = bytes(rng.randrange(256) for _ in range(20 + rec * cnt))
+        raw = w.to_bytes(2, "big") + cnt.to_bytes(2, "big") + body
+        tail = [msg_v5(rng, 1)] if rng.random() < 0.4 else []
+        ops = [op_new(0, allowed=[5, 7, 9, 10, w] if rng.random() < 0.7 else [w, like])]
+        o = op_parse(0, msgs=[{"raw": {"b": hx(raw)}}] + tail, want=["export", "common", "json"]); o["nospec"] = True
+        ops.append(o)
+        out.append(("fixed-alias-version", ops))
     return out
 
 
@@ -2315,7 +2458,7 @@ def api_noise_scenarios(rng, scens, cap=150):
     out = []
     std = {"op", "p", "msgs", "hexs", "hex", "want", "nospec"}
     plain = [(k, ops) for k, ops in scens
-             if not any(o["op"].startswith("assert_") or o["op"] in ("flat", "fixed_roundtrip", "allowed", "forget") for o in ops)
+             if not any(o["op"].startswith("assert_") or o["op"] in ("flat", "fixed_roundtrip", "allowed", "forget", "adopt") for o in ops)
              and not any(o["op"] == "parse" and (set(o) - std) for o in ops)
              and all(o["op"] in ("new", "parse") for o in ops)]
     multi = [(k, ops) for k, ops in plain if sum(1 for o in ops if o["op"] == "parse") >= 2]
